@@ -1,8 +1,106 @@
-(* placeholder, filled in stage B *)
-From Coq Require Import ZArith List Bool.
-Require Import Rig.Generated.GenLoad Rig.Model.Base Rig.Model.Load.
+(* What C09 asks of application loading, stated on the application map, the machine before and after,
+   the outcome and the packets sent.  Definitions only.  The packet fields are read here as the machine
+   reads them (division and remainder, Model/Load.v [field]), not with the shifts of the code. *)
+From Coq Require Import ZArith List Bool Sorted.
+Require Import Rig.Generated.GenLoad Rig.Model.Base Rig.Model.Regions Rig.Spec.Regions Rig.Model.Load.
 Import ListNotations.
 Open Scope Z_scope.
 
+(* ---------------------------------------------------------------- the id of a fill *)
 (* n-fold application of the id update of _get_next_nn_id *)
-Fixpoint nn_iter (n : nat) (v : Z) : Z := match n with O => v | S k => next_nn_id (nn_iter k v) end.
+Fixpoint nn_iter (n : nat) (v : Z) : Z :=
+  match n with O => v | S k => next_nn_id (nn_iter k v) end.
+
+(* ---------------------------------------------------------------- cores and what they hold *)
+(* the state of core (x, y, p) *)
+Definition core_at (m : machine) (c : core) : option core_st :=
+  let '(x, y, p) := c in
+  match cassoc (x, y) (m_chips m) with
+  | Some ch => nth_error (ch_cores ch) (Z.to_nat p)
+  | None => None
+  end.
+
+(* the (binary, core) pairs of an application map, in map order *)
+Definition named (am : appmap) : list (Z * core) :=
+  flat_map (fun bt => map (fun c => (fst bt, c)) (cores_of_targets (snd bt))) am.
+
+(* core c holds the complete binary number b under app id [app] in state [st] *)
+Definition holds (bins : list (list Z)) (m : machine) (app st b : Z) (c : core) : Prop :=
+  exists data, nth_error bins (Z.to_nat b) = Some data /\ core_at m c = Some (mkCore st app data).
+
+Definition in_wait (m : machine) (c : core) : Prop :=
+  exists s, core_at m c = Some s /\ cs_state s = STATE_WAIT.
+
+(* ---------------------------------------------------------------- guards *)
+Definition core_wf (c : core_st) : Prop := 0 <= cs_state c < 256 /\ 0 <= cs_app c < 256.
+
+(* a machine as the loader expects it: distinct chips, vcpu fields are bytes, the vcpu blocks do not
+   overlap the two sv words, the buffer holds between one and 256 words *)
+Definition machine_wf (m : machine) : Prop :=
+  NoDup (map fst (m_chips m))
+  /\ (forall xy ch, In (xy, ch) (m_chips m) -> Forall core_wf (ch_cores ch))
+  /\ (m_vcpu m + VCPU_SIZE * N_CORES <= SV_BASE \/ SV_BASE + 256 <= m_vcpu m)
+  /\ 0 <= m_vcpu m < 2 ^ 32 /\ 0 <= m_base m < 2 ^ 32
+  /\ 4 <= m_buffer m <= 1024 /\ m_buffer m mod 4 = 0.
+
+(* the binaries the map names exist, are whole words and need at most 255 blocks *)
+Definition binary_ok (buffer : Z) (data : list Z) : Prop :=
+  zlen data mod 4 = 0 /\ ff_n_blocks (zlen data) buffer <= 255.
+
+Definition map_wf (bins : list (list Z)) (buffer : Z) (am : appmap) : Prop :=
+  (forall b ts, In (b, ts) am ->
+     0 <= b /\ exists data, nth_error bins (Z.to_nat b) = Some data /\ binary_ok buffer data)
+  /\ NoDup (map snd (named am)).          (* every core is named for at most one binary *)
+
+(* the controller's cache of the buffer size, if filled, is the machine's; its fill id is in range *)
+Definition ctrl_wf (c : ctrl) (m : machine) : Prop :=
+  0 <= c_nn c <= 126 /\ (c_buffer c = None \/ c_buffer c = Some (m_buffer m)).
+
+(* the two regions in which the property is refuted *)
+(* (1) a requested core is already in `wait` (from an earlier load) *)
+Definition no_requested_waiting (m : machine) (am : appmap) : Prop :=
+  forall b c, In (b, c) (named am) -> ~ in_wait m c.
+(* (2) count mode: another core is in `wait` under the same app id *)
+Definition no_other_waiting (m : machine) (am : appmap) (app : Z) : Prop :=
+  forall c s, ~ In c (map snd (named am)) -> core_at m c = Some s ->
+    ~ (cs_state s = STATE_WAIT /\ cs_app s = app).
+
+(* ---------------------------------------------------------------- a well formed flood fill *)
+Definition is_nn (op : Z) (q : pkt) : Prop := q_cmd q = CMD_NNP /\ field (q_a1 q) 24 8 = op.
+Definition is_ffd (q : pkt) : Prop := q_cmd q = CMD_FFD.
+Definition is_read (q : pkt) : Prop := q_cmd q = CMD_READ.
+
+(* the key by which core selections must increase: (region << 18) | core mask *)
+Definition sel_key (q : pkt) : Z := q_a2 q * 2 ^ 18 + field (q_a1 q) 0 18.
+
+(* the data packets number the blocks block, block + 1, ..., each holds the words it announces, at
+   most a buffer-full, and is loaded where the previous one ended *)
+Fixpoint blocks_ok (buffer pid block addr : Z) (ds : list pkt) : Prop :=
+  match ds with
+  | [] => True
+  | q :: r =>
+      is_ffd q /\ field (q_a1 q) 0 8 = pid /\ field (q_a2 q) 16 8 = block
+      /\ 4 * (field (q_a2 q) 8 8 + 1) = zlen (q_data q) /\ zlen (q_data q) <= buffer
+      /\ q_a3 q = addr
+      /\ blocks_ok buffer pid (block + 1) (addr + zlen (q_data q)) r
+  end.
+
+(* the packets of one fill of [data]: start, core selections in increasing order, (the read of the
+   load address,) data blocks, end; announced count = blocks sent; the blocks reassemble to the binary *)
+Definition ff_wellformed (buffer base : Z) (data : list Z) (ps : list pkt) : Prop :=
+  exists ffs sels rd ds ffe,
+    ps = [ffs] ++ sels ++ [rd] ++ ds ++ [ffe]
+    /\ is_nn NN_FFS ffs /\ Forall (is_nn NN_FFCS) sels /\ is_read rd /\ is_nn NN_FFE ffe
+    /\ field (q_a1 ffs) 8 8 = zlen ds
+    /\ blocks_ok buffer (field (q_a1 ffs) 16 8) 0 base ds
+    /\ concat (map q_data ds) = data
+    /\ field (q_a1 ffe) 0 8 = field (q_a1 ffs) 16 8
+    /\ StronglySorted (fun a b => sel_key a < sel_key b) sels.
+
+(* the cores a list of core select packets selects *)
+Definition sels_select (sels : list pkt) (c : core) : bool :=
+  let '(x, y, p) := c in
+  existsb (fun q => pair_selects (q_a2 q, field (q_a1 q) 0 18) x y p) sels.
+
+(* the packets sent so far, oldest first *)
+Definition sent (w : world) : list pkt := rev (map fst (w_log w)).
